@@ -5,6 +5,7 @@ import (
 	"context"
 	"fmt"
 	"runtime/debug"
+	"sort"
 	"strconv"
 	"strings"
 	"sync"
@@ -212,6 +213,8 @@ func evalGen(tier string, r *rng, emit func(string)) {
 			fam = famRegs(r)
 		case prop == "C07" && i%3 == 1:
 			fam = famPanic(r)
+		case prop == "C07" && i%3 == 2:
+			fam = famExt(r, extensionNames())
 		case prop == "C01" && i%8 == 1:
 			fam = famCache(r)
 		case prop == "C01" && i%8 == 5:
@@ -239,4 +242,17 @@ func evalGen(tier string, r *rng, emit func(string)) {
 		}
 		emit(prop + ";steps=200000;" + strings.Join(hs, "|"))
 	}
+}
+
+var extNamesCache []string
+
+func extensionNames() []string {
+	if extNamesCache == nil {
+		initExtensions()
+		for n := range object.ExtraFunctions() {
+			extNamesCache = append(extNamesCache, n)
+		}
+		sort.Strings(extNamesCache)
+	}
+	return extNamesCache
 }
